@@ -21,7 +21,7 @@ EXPLANATION = (
     "with _pmodel == pm_pipeline; pipelined writes go to _msg_queue.try_push; execute() pops one message per iteration and is the queue's "
     "only consumer; R25.2 Session::_batchmsgs_buffer is referenced only in send_process; each `_persist->…` call is inside a guard on "
     "_per_spl (disabled only for pm_coro), exemption: handle_resend_request's `_persist->get` (taking the lock there self-deadlocks "
-    "through retrans_callback → send → send_process). R25.4 the bytes stored under a number derive only from that message's encoder output and the store sits before the counter update (rules of C17). NOT decided: any interleaving.")
+    "through retrans_callback → send → send_process). R25.4 the bytes stored under a number derive only from that message's encoder output and the store sits before the counter update (rules of C17). R25.5 the queue the pipelined writer hands messages through neither refuses nor loses an element (growable sub-queues, stored-before-true, segments registered: rules R30.6-R30.8 of C30). NOT decided: any interleaving.")
 
 S = 'FIX8::Session::'
 W = 'FIX8::FIXWriter::'
